@@ -51,4 +51,27 @@ def handleE2EDelay : List String → Option String
     | _ => none
   | _ => none
 
+/-- `e2earp base ones inj gw obs`: the ARP scan's own output, loaded by the real `FillCache`, maps every answering
+    host to the LAST MAC it answered with and nothing else (`C11_printed_line_loads`, `C11_last_wins`); the TCP scan
+    given that output addresses every probe to that MAC, and the probes for silent hosts to the gateway
+    (`C11_stage_choice`, `C11_never_foreign_mac`) -/
+def handleE2EArp : List String → Option String
+  | [base, ones, inj, gw, obs] => do
+    let base ← parseNat? base; let ones ← parseNat? ones
+    let pairs : List (String × String) := if inj.isEmpty then [] else
+      (inj.splitOn ",").filterMap (fun p => match p.splitOn "=" with
+        | [a, b] => some (a, b)
+        | _ => none)
+    let n := 2 ^ (32 - ones)
+    let sent := (List.range n).map (fun i =>
+      let ip := toString (base + i)
+      let mac := match pairs.find? (·.1 == ip) with
+        | some (_, m) => m
+        | none => gw
+      s!"{ip}={mac}")
+    let sortS (l : List String) : List String := (l.toArray.qsort (· < ·)).toList
+    let m := "load=" ++ ",".intercalate (sortS (pairs.map (fun (a, b) => s!"{a}={b}"))) ++ "|sent=" ++ ",".intercalate (sortS sent)
+    pure s!"{m}\t{b2s (obs == m)}"
+  | _ => none
+
 end Driver.E2E
